@@ -23,13 +23,13 @@ CONSTANTS NOps,      \* operations are numbered 1..NOps; their kinds are given b
 Kinds == <<"run_ok", "parse_err_eof", "parse_err_mid", "lex_err", "check_err", "run_err_in_loops", "run_exit_in_loop",
            "run_cancelled", "run_use", "run_err_after_return", "run_rename_drop", "parse_rejected_operand", "run_v2",
            "run_err_in_if", "run_err_in_cond", "run_bq_keywords", "run_emptymap_write", "run_emptymap_read", "run_void_into_keys", "run_typed_fields", "run_loadjson_mutate", "check_err_in_loop", "check_err_stray_break", "run_grok_digits", "run_grok_letters", "check_err_grok", "run_sql_bs1", "run_sql_bs2",
-           "run_default_time", "run_zero_time", "run_use_badregex", "run_use_callee_err", "run_err_in_call_args", "run_strfmt", "run_use_lib_a", "run_use_lib_b", "run_ok">>
+           "run_default_time", "run_zero_time", "run_use_badregex", "run_use_callee_err", "run_err_in_call_args", "run_strfmt", "run_use_lib_a", "run_use_lib_b", "run_zone_name", "run_zone_name_lower", "run_replace_upper", "run_replace_lower", "run_ok">>
 \* operation NOps + k re-runs the script that operation k loaded earlier in the same history (no load in between)
 KindOf(o) == IF o > NOps THEN "rerun" ELSE Kinds[((o - 1) % Len(Kinds)) + 1]
 RunKinds == {"run_ok", "run_err_in_loops", "run_exit_in_loop", "run_cancelled", "run_use", "run_err_after_return", "run_rename_drop",
              "run_v2", "run_err_in_if", "run_err_in_cond", "run_bq_keywords", "run_emptymap_write", "run_emptymap_read", "run_void_into_keys", "run_typed_fields", "run_loadjson_mutate", "run_grok_digits", "run_grok_letters", "run_sql_bs1", "run_sql_bs2",
              "run_default_time", "run_zero_time", "run_use_badregex", "run_use_callee_err",
-             "run_err_in_call_args", "run_strfmt", "run_use_lib_a", "run_use_lib_b"}
+             "run_err_in_call_args", "run_strfmt", "run_use_lib_a", "run_use_lib_b", "run_zone_name", "run_zone_name_lower", "run_replace_upper", "run_replace_lower"}
 
 Fields == [o \in Objects |-> FieldsOf(o)]
 Reset == [o \in Objects |-> ResetOf(o)]
